@@ -85,6 +85,25 @@ def check_step(ctx, cls):
         ctx.check(ok, "C04-b", q + ":level written", where, "the solution of step i is stored as level i+1", signature="level index", index=str(stores[0].data["index"]) if stores else "none")
         if arr is None:
             continue
+        # every step of the loop is taken: the loop runs over all len(time)-1 increments, never leaves early, and
+        # nothing but the solve writes a level
+        others = [e for e in p.events if e.kind == "store_sub" and e.data["base"] is arr and e not in stores and not (isinstance(e.data["index"], TupV) and isinstance(e.data["index"].items[0], Num) and not e.data["index"].items[0].nf)]
+        loops = [e for e in p.events if e.kind == "for_iter" and e.func == q]
+        from ..values import RangeV
+
+        okloop = False
+        exits = []
+        if len(loops) == 1 and isinstance(loops[0].data["iter"], RangeV):
+            ra = [it.to_nf(x) for x in loops[0].data["iter"].args]
+            stop = ra[0] if len(ra) == 1 else (ra[1] if len(ra) == 2 and not ra[0] else None)
+            nsteps = [nf.sub(nf.fn("len", nf.sym("time")), nf.ONE), nf.sub(nf.fn("[]", nf.sym("time.shape"), nf.const(0)), nf.ONE)]
+            okloop = stop in nsteps
+            exits = [n.lineno for st in loops[0].node.body for n in ast.walk(st) if isinstance(n, (ast.Break, ast.Return))]
+        ctx.check(
+            okloop and not exits and not others, "C04-b", q + ":all steps taken", where,
+            "the time loop runs over all len(time) - 1 increments, has no early exit, and no statement other than the solve writes a time level",
+            signature="steps skipped", early_exit_lines=exits, other_level_stores=[f"line {e.line}" for e in others],
+        )
         final = [e for e in p.events if e.kind == "store_attr" and e.data["attr"] == "pseudopressure" and e.data["value"] is arr]
         ctx.check(bool(final), "C04-b", q + ":stored field", f.where(), "self.pseudopressure is the array the levels were written to", signature="stored field")
         # right-hand side from level i
